@@ -11,9 +11,11 @@ Scenarios == {"fresh",                \* built, never solved
               "unbounded1",           \* non-smooth convex f, metric f(x0) - f(xs): unbounded
               "unbounded2",           \* no initial condition
               "unbounded3",           \* metric is a free leaf expression
+              "unbounded4",           \* no performance metric at all (the minimum over no metric)
               "infeasible1",          \* |x1 - x0|^2 <= -1
               "infeasible2",          \* t <= 0 and t >= 1
               "infeasible3",          \* LMI [[t, 0], [0, -1]] >> 0
+              "infeasible4",          \* a condition that prunes to a constant: 0 * |x0 - xs|^2 >= 1
               "other-solved",         \* model A solved, then a NEW model B built and not solved: B's objects
               "solved"}               \* sanity: a successful solve
 Objects == {"leafpoint", "derivedpoint", "leafexpr", "derivedexpr", "constraint", "lmi", "metric",
@@ -24,7 +26,7 @@ Objects == {"leafpoint", "derivedpoint", "leafexpr", "derivedexpr", "constraint"
 Accessors(o) == IF o \in {"constraint", "lmi"} THEN {"eval", "eval_dual"} ELSE {"eval"}
 HasSolution(scn) == scn = "solved"
 Expected(scn, o, a) == IF HasSolution(scn) THEN "ok" ELSE "raises:ValueError"
-SolveReturns(scn) == CASE scn \in {"unbounded1", "unbounded2", "unbounded3", "infeasible1", "infeasible2", "infeasible3"} -> "none"
+SolveReturns(scn) == CASE scn \in {"unbounded1", "unbounded2", "unbounded3", "unbounded4", "infeasible1", "infeasible2", "infeasible3", "infeasible4"} -> "none"
                        [] scn = "solved" -> "num" [] OTHER -> "n/a"
 \* invalid option values: must end in an error, never in a number
 BadOptions == {[opt |-> "return_primal_or_dual", val |-> v] : v \in {"both", "Dual", ""}}
